@@ -231,6 +231,9 @@ def svd(x, /, *, full_matrices=True) -> SVDResult:
     if full_matrices:
         raise ValueError("Cubed arrays only support using full_matrices=False")
 
+    if x.dtype not in _floating_dtypes:
+        raise TypeError("Only floating-point dtypes are allowed in svd")
+
     nb = x.numblocks
     # TODO: optimize case nb[0] == nb[1] == 1
     if nb[0] > nb[1]:
